@@ -12,6 +12,7 @@ import (
 	"go/constant"
 	"go/token"
 	"go/types"
+	"strings"
 
 	"golang.org/x/tools/go/packages"
 	"golang.org/x/tools/go/ssa"
@@ -36,8 +37,25 @@ func (e *Engine) resolveConstTables() error {
 		if pkg == nil {
 			return fmt.Errorf("const tables: package %s not loaded", pkgPath)
 		}
-		sp := e.ssaPkgs[pkgPath]
+		homePkg := pkg
 		for _, name := range names {
+			// `//@ const q.Name`: a table of another package of the module (q is
+			// that package's name); its value is assumed in this package's contracts.
+			pkg := homePkg
+			if k := strings.Index(name, "."); k >= 0 {
+				qual := name[:k]
+				name = name[k+1:]
+				pkg = nil
+				for _, p := range e.pkgs {
+					if p.Name == qual && strings.HasPrefix(p.PkgPath, modPath) {
+						pkg = p
+					}
+				}
+				if pkg == nil {
+					return fmt.Errorf("const table %s.%s: package not loaded", qual, name)
+				}
+			}
+			sp := e.ssaPkgs[pkg.PkgPath]
 			obj, ok := pkg.Types.Scope().Lookup(name).(*types.Var)
 			if !ok {
 				return fmt.Errorf("const table %s: not a package-level variable", name)
